@@ -320,11 +320,40 @@ class Engine(Interp):
         st.fmeta[fid] = (body.id, gs)
         self.chain.append(body.id)
         saved_span = self.cur_span
+        cur0 = None
+        if body.name == 'next' and body.impl and body.impl.get('trait') == ITER_TRAIT and args and args[0][0] == 'ref' \
+                and args[0][2][0] in ('L', 'O'):
+            # next() of a hand-written cursor handle (struct { slots, next }): what a slice iterator's next() would
+            # have put into the path log -- the advance / the exhaustion -- is recorded from the cursor before and after
+            try:
+                self.view_zone = st.zone
+                cv = self.cursor_view(self.load(st, args[0][2]))
+            except Unproven:
+                cv = None
+            if cv is not None:
+                cur0 = (args[0][2], cv[1], cv[2], cv[3])
         try:
             results = self.run_cfg(st, body, fid)
         finally:
             self.chain.pop()
             self.cur_span = saved_span
+        if cur0 is not None:
+            for kind, s, v in results:
+                if kind != 'ret' or not (isinstance(v, tuple) and v and v[0] == 'adt' and v[1] == OPTION):
+                    continue
+                try:
+                    self.view_zone = s.zone
+                    cv = self.cursor_view(self.load(s, cur0[0]))
+                except Unproven:
+                    cv = None
+                if cv is None or cv[1] != cur0[1]:
+                    continue
+                if v[2] == 1 and s.zone.entails_eq(cv[2], cur0[2], 1):
+                    s.log('adv', cur0[1], cur0[2], 'front')
+                    if getattr(self, 'track_adv', False):
+                        self.ghost_bump(s, ('adv', cur0[1]))
+                elif v[2] == 0 and s.zone.entails_le(cur0[3], cur0[2]) and s.zone.entails_eq(cv[2], cur0[2]):
+                    s.log('cursor-end', cur0[1])
         out = []
         for kind, s, v in results:
             self.abandoned_mu(s, s.frames.get(fid, {}), kind, body)
@@ -1114,6 +1143,7 @@ class Engine(Interp):
                 out.append((kind, s))
                 continue
             # an owning handle must have destroyed everything it still owned
+            self.view_zone = s.zone
             for sv in self.sliceits_in(v2):
                 mid, fr, bk = sv[1], sv[2], sv[3]
                 ms = s.maps[mid]
@@ -1143,8 +1173,9 @@ class Engine(Interp):
         return tuple(out)
 
     def cursor_struct(self, path):
-        """struct { slots: &mut [MaybeUninit<_>], next: usize } of the crate: a hand-written front cursor over a
-        slice of slots (the layout a slice iterator has, spelled out).  Returns (slice field, cursor field)."""
+        """struct { slots: &mut [MaybeUninit<_>] | &[MaybeUninit<_>], next: usize } of the crate: a hand-written
+        front cursor over a slice of slots (the layout a slice iterator has, spelled out).
+        Returns (slice field, cursor field, mutable)."""
         c = self._cursor_structs.get(path, 0) if hasattr(self, '_cursor_structs') else 0
         if c != 0:
             return c
@@ -1157,11 +1188,11 @@ class Engine(Interp):
             real = [(i, f) for i, f in enumerate(fields)
                     if not (f['ty'].get('k') == 'adt' and f['ty']['path'].endswith('PhantomData'))]
             if len(real) == 2:
-                sl = [i for i, f in real if f['ty'].get('k') == 'ref' and f['ty']['mut']
+                sl = [i for i, f in real if f['ty'].get('k') == 'ref'
                       and f['ty']['to'].get('k') == 'slice' and ty_is_mu(f['ty']['to']['elem'])]
                 ix = [i for i, f in real if f['ty'].get('k') == 'prim' and f['ty']['name'] == 'usize']
                 if len(sl) == 1 and len(ix) == 1:
-                    res = (sl[0], ix[0])
+                    res = (sl[0], ix[0], bool(fields[sl[0]]['ty']['mut']))
         self._cursor_structs[path] = res
         return res
 
@@ -1174,8 +1205,13 @@ class Engine(Interp):
         if cs is None:
             return None
         r, nx = v[3][cs[0]], v[3][cs[1]]
-        if r[0] == 'ref' and r[2][0] == 'slice' and nx[0] == 'int' and r[2][2] == 0 and not isinstance(r[2][2], bool):
-            return ('sliceit', r[2][1], nx[1], r[2][3], True)
+        if r[0] == 'ref' and r[2][0] == 'slice' and nx[0] == 'int':
+            lo = r[2][2]
+            z = getattr(self, 'view_zone', None)
+            at_origin = (isinstance(lo, int) and not isinstance(lo, bool) and lo == 0) or \
+                (isinstance(lo, Term) and z is not None and z.entails_eq(lo, 0))
+            if at_origin:
+                return ('sliceit', r[2][1], nx[1], r[2][3], cs[2])
         return None
 
     def sliceits_in(self, v, acc=None, depth=0):
